@@ -10,6 +10,7 @@ import (
 	"encoding/hex"
 	"fmt"
 	"log"
+	"net/http"
 	"os"
 	"strings"
 
@@ -230,12 +231,20 @@ func (a *act) describe() string {
 
 // run sends one request through a fresh handler over the table and records the case(s).
 func (g *G) run(t *table, r *req, intent, kind, key string, extra map[string]interface{}) answer {
+	return g.runOn(t.handler(), t, r, intent, kind, key, extra)
+}
+
+// runOn: the same through an existing handler (histories: the handler, or the whole process, has
+// served other requests before; the model is a function of (table, request) only, so any dependence
+// on the past shows as a mismatch)
+func (g *G) runOn(h http.Handler, t *table, r *req, intent, kind, key string, extra map[string]interface{}) answer {
 	body := r.body()
-	ans := send(t.handler(), body)
+	ans := send(h, body)
 	rp := map[string]interface{}{"api": "joinserver.NewHandler(config).ServeHTTP (POST body)", "body": body, "config": t.replay(), "observed": ans.summary(), "intent": intent}
 	for k, v := range extra {
 		rp[k] = v
 	}
+	g.configIntact(t, key, rp)
 	if ans.garbage != "" && !ans.panicked {
 		g.s.Fail(cases.GoFail{Key: "answer-shape:" + key, What: "the answer is not a well-formed Backend Interfaces answer: " + ans.garbage, Replay: rp})
 	} else if !ans.panicked && !ans.bare && ans.proto != "1.0" {
@@ -245,25 +254,42 @@ func (g *G) run(t *table, r *req, intent, kind, key string, extra map[string]int
 	return ans
 }
 
+// configIntact: the handler must leave the values its callbacks returned alone (they are the key
+// store's own memory); a later request would otherwise be served from a corrupted configuration.
+func (g *G) configIntact(t *table, key string, rp map[string]interface{}) {
+	if m := t.mutated(); m != "" {
+		g.s.Fail(cases.GoFail{Key: "config-mutated:" + key, What: "the handler wrote into the slice GetKEKByLabelFunc returned: " + m, Replay: rp})
+	}
+}
+
 // activation: a conformant request.  A rejoin with OptNeg set is split into two cases so that the
 // recorded finding (session keys) has its own narrow key and every other clause keeps its own.
 func (g *G) activation(a *act, kind string) {
-	t, r := a.table(), g.request(a)
+	t := a.table()
+	g.activationOn(t.handler(), t, a, kind, "", nil)
+}
+
+func (g *G) activationOn(h http.Handler, t *table, a *act, kind, prefix string, extra map[string]interface{}) {
+	r := g.request(a)
 	if a.kind == kJoin || a.dls&0x80 == 0 {
 		in := a.intent()
 		if a.kind != kJoin {
 			in = "INone" // rejoin answered with OptNeg unset: outside what the property fixes (notes/C16.md)
 		}
-		g.run(t, r, in, kind, a.describe(), nil)
+		g.runOn(h, t, r, in, kind, prefix+a.describe(), extra)
 		return
 	}
 	body := r.body()
-	ans := send(t.handler(), body)
+	ans := send(h, body)
 	rp := map[string]interface{}{"api": "joinserver.NewHandler(config).ServeHTTP (POST body)", "body": body, "config": t.replay(), "observed": ans.summary(), "intent": a.intent()}
-	if ans.garbage != "" && !ans.panicked {
-		g.s.Fail(cases.GoFail{Key: "answer-shape:" + a.describe(), What: "the answer is not a well-formed Backend Interfaces answer: " + ans.garbage, Replay: rp})
+	for k, v := range extra {
+		rp[k] = v
 	}
-	g.s.Add(cases.Case{Term: fmt.Sprintf("CReq %s %s %s %s PNoKeys", t.coq(), r.coq(), ans.coq(), a.intent()), Key: a.describe() + ":accept", Kind: kind, Nontrivial: true, Replay: rp})
+	g.configIntact(t, prefix+a.describe(), rp)
+	if ans.garbage != "" && !ans.panicked {
+		g.s.Fail(cases.GoFail{Key: "answer-shape:" + prefix + a.describe(), What: "the answer is not a well-formed Backend Interfaces answer: " + ans.garbage, Replay: rp})
+	}
+	g.s.Add(cases.Case{Term: fmt.Sprintf("CReq %s %s %s %s PNoKeys", t.coq(), r.coq(), ans.coq(), a.intent()), Key: prefix + a.describe() + ":accept", Kind: kind, Nontrivial: true, Replay: rp})
 	g.s.Add(cases.Case{Term: fmt.Sprintf("CReq %s %s %s %s PKeysOnly", t.coq(), r.coq(), ans.coq(), a.intent()),
 		Key: fmt.Sprintf("rejoin:optneg=true:session-keys:type=%d:dev=%x:nonce=%d", a.reqtype(), a.dev.devEUI, a.devNonce), Kind: kind + "-session-keys", Nontrivial: true, Replay: rp})
 }
@@ -326,6 +352,7 @@ func main() {
 	g.variations(thorough)
 	g.malformed(thorough)
 	g.homeNS(thorough)
+	g.histories(thorough)
 	g.goOnly(thorough)
 	g.concurrent(thorough)
 	if thorough || os.Getenv("VERIF_C16_RACE") == "1" {
